@@ -38,7 +38,7 @@ template bool Tins::Internals::increment<6>(Tins::HWAddress<6>&);
 template bool Tins::Internals::decrement<6>(Tins::HWAddress<6>&);
 template Tins::HWAddress<6> Tins::Internals::last_address_from_mask<6>(Tins::HWAddress<6>, const Tins::HWAddress<6>&);
 static bool verif_use_hw_ops(const Tins::HWAddress<6>& a, const Tins::HWAddress<6>& b) {
-    return a == b || a != b || a < b || a <= b || a > b || a >= b || (a & b) == a;
+    return a == b || a != b || a < b || a <= b || a > b || a >= b || (a & b) == a || (a | b) == b || (~a) == b;
 }
 bool (*verif_keep)(const Tins::HWAddress<6>&, const Tins::HWAddress<6>&) = &verif_use_hw_ops;
 """
@@ -73,6 +73,8 @@ def run(db, rep, tier):
     rep.rule("R9-hex-printer", "the hardware-address printer maps every nibble value 0..15 to its hexadecimal digit (both nibbles of an octet, "
                                "high nibble first)", 2)
     r9(db, rep)
+    rep.rule("R10-hw-byte-loops", "every byte loop of HWAddress<6> (mask operators, broadcast fill) visits exactly positions 0..5", 4)
+    r10(db, rep)
     rep.explanation = ("NARROW claim for C16: decides membership-as-ordering, operator consistency, hash/equality dependence, "
                        "the rejection discipline of the text parsers (incl. the exact accept set and digit values of the "
                        "hardware-address parser, by evaluating its character tests over all 256 byte values) and the bitwise shape "
@@ -757,3 +759,50 @@ def r9(db, rep):
             rep.violation("R9-hex-printer", key, facts.loc(f, node), "the nibbles are appended in the order %s, not high then low" % order[:2])
         else:
             rep.ok("R9-hex-printer", key, facts.loc(f, node), "all 16 values map to their digit; appended high nibble first")
+
+
+def r10(db, rep):
+    from vlib import ieval
+    N = 6
+    fs = [f for f in db.functions.values() if (f.get("rec") or "") in ("Tins::HWAddress<6>", "Tins::HWAddress<6UL>") and f.get("body") and not f.get("implicit")]
+    n = 0
+    seen = {}
+    for f in sorted(fs, key=lambda x: x["id"]):
+        for lp in facts.fn_nodes(f):
+            if lp["k"] != "ForStmt" or len(lp["c"]) < 5:
+                continue
+            init, cnd, inc, body = lp["c"][0], lp["c"][2], lp["c"][3], lp["c"][4]
+            iv = [x for x in facts.walk(init)] if init is not None else []
+            decl = [x for x in iv if x["k"] == "VarDecl" and x.get("c")]
+            if not decl or cnd is None:
+                continue
+            v = decl[0]["var"]
+            # indexes a byte array with the loop variable?
+            idx = [x for x in facts.walk(body) if x["k"] in ("ArraySubscriptExpr", "CXXOperatorCallExpr") and
+                   any(y["k"] == "DeclRefExpr" and y.get("var") == v for y in facts.walk(x["c"][-1]))]
+            if not idx:
+                continue
+            n += 1
+            nm = f["qual"].split("::")[-1]
+            seen[nm] = seen.get(nm, 0) + 1
+            key = "HWAddress<6>::%s:loop#%d" % (nm, seen[nm])
+            try:
+                start = ieval.ev(f, decl[0]["c"][0], {})
+                visited = []
+                i = start
+                while len(visited) <= N + 2 and ieval.ev(f, cnd, {v: i}):
+                    visited.append(i)
+                    i += 1
+            except ieval.Unknown as e:
+                rep.analysis_broken("%s: loop outside the finite evaluator: %s" % (key, e))
+                continue
+            upto = [x for x in facts.walk(cnd) if x["k"] == "DeclRefExpr" and x.get("var") != v]
+            bounded_by_other = any(not ("v" in x) for x in upto)
+            if visited == list(range(N)) or (bounded_by_other and visited and visited[0] == 0 and visited[-1] < N):
+                rep.ok("R10-hw-byte-loops", key, facts.loc(f, lp), "visits %s" % (visited if len(visited) <= N else "0..%d" % (N - 1)))
+            else:
+                rep.violation("R10-hw-byte-loops", key, facts.loc(f, lp),
+                              "the loop visits positions %s of a %d-octet address: %s" % (
+                                  visited[:9], N, "it reads / writes past the end" if visited and visited[-1] >= N else "octets are left out of the operation"))
+    if n < 4:
+        rep.analysis_broken("only %d byte loops found in HWAddress<6>" % n)
